@@ -20,8 +20,9 @@
       `iterAsc_eq_proj` for ranges between index-key borders). `init` is the staggered race in which all
       workers start first (`startWorker_chunk`).
 
-  Results, for every interleaving, all failure masks without CAS errors on unconditional deletes (hence
-  every crash point of every worker), every engine quirk set:
+  Results, for every interleaving, ALL failure masks (any mix of ok / error / failed-condition error on
+  plain deletes and compare-and-deletes of every worker, hence every crash point of every worker), every
+  engine quirk set:
     * `par_compDel_invisible` (`…_staggered`)     one more call of any worker changes no read at any
                               `R' ≥ R` and no key's logical index;
     * `par_race_equals_restored` (`…_staggered`)  in the final state reads at `R' ≥ R` equal the reads of the
@@ -408,7 +409,7 @@ theorem sim_run {q : Quirks} {masks : Nat → Nat → DelOutcome} {R : Nat} {dom
 /-- In a state satisfying the invariant one more call of any worker changes no read at any `R' ≥ R` and no
 key's logical index. -/
 theorem invisible_of_inv {q : Quirks} {masks : Nat → Nat → DelOutcome} {R : Nat} {dom : Nat → Bytes → Bool}
-    {s : PState} (hP : PInv q R masks dom s) (hm : ∀ w, NoCasOnDel (masks w)) (j : Nat) :
+    {s : PState} (hP : PInv q R masks dom s) (j : Nat) :
     (∀ R', R ≤ R' → ∀ k, readS R' (step q masks s (.compDel j)).store k = readS R' s.store k) ∧
     (∀ k, logicalIdx (step q masks s (.compDel j)).store k = logicalIdx s.store k) := by
   cases hj : s.workers[j]? with
@@ -426,7 +427,7 @@ theorem invisible_of_inv {q : Quirks} {masks : Nat → Nat → DelOutcome} {R : 
       simp only
       have hS' := runDelete_sorted (masks j) (st := wj.comp s.store) hP.1 a
       have hG' := runDelete_goodKeys (masks j) (st := wj.comp s.store) hP.2.1 a
-      obtain ⟨i1, i2⟩ := C07Race.compDel_invisible hs hw hk hne hidx R q (masks j) (hm j) steps' hd
+      obtain ⟨i1, i2⟩ := C07Race.compDel_invisible hs hw hk hne hidx R q (masks j) steps' hd
       have hsim' := sim_compDel (q := q) (mask := masks j) (st := wj.comp s.store) hP.1 (hp ▸ hsim) hin
       have hout := compDel_out (K' := fun k => !dom j k) (masks j) (st := wj.comp s.store) hP.1
         (fun ik h => inDom_not (hin ik h))
@@ -462,7 +463,7 @@ theorem mem_allSnaps {s : PState} {r : Rec} :
 /-- In a state satisfying the invariant every read at `R' ≥ R` equals the read of the store with every
 removed version of every worker's snapshot put back. -/
 theorem restored_of_inv {q : Quirks} {masks : Nat → Nat → DelOutcome} {R : Nat} {dom : Nat → Bytes → Bool}
-    {s : PState} (hP : PInv q R masks dom s) (hdisj : DomDisjoint dom) (hm : ∀ w, NoCasOnDel (masks w))
+    {s : PState} (hP : PInv q R masks dom s) (hdisj : DomDisjoint dom)
     (R' : Nat) (hR : R ≤ R') (k : Bytes) :
     readS R' s.store k = readS R' (restored (allSnaps s) s.store) k := by
   -- every snapshot record belongs to a worker that is in a single-worker race
@@ -508,7 +509,7 @@ theorem restored_of_inv {q : Quirks} {masks : Nat → Nat → DelOutcome} {R : N
     have hpS := proj_sorted (dom i) hP.1
     have hpG := proj_goodKeys (dom i) hP.2.1
     rw [← readS_proj (dom i) hP.1 hP.2.1 R' hKk, ← hsim.1,
-      C07Race.race_equals_restored hs hw hk hne hidx R q (masks i) (hm i) steps' hd R' hR k, hsim.1]
+      C07Race.race_equals_restored hs hw hk hne hidx R q (masks i) steps' hd R' hR k, hsim.1]
     unfold readS
     apply readAt_congr_key (storeRecs_sorted (restored_sorted _ hpS) (restored_goodKeys hw hk hpG))
       (storeRecs_sorted hRS hRG)
@@ -665,27 +666,27 @@ theorem inv_reachable (R : Nat) (q : Quirks) (masks : Nat → Nat → DelOutcome
   inv_run (chunkDom_disjoint hdisj) steps (inv_init ⟨hs, hw, hk, hne, hidx⟩ hdisj q R masks) hd
 
 /-- **1. One call of any worker is invisible.** In every state reachable by a disciplined run — any
-interleaving of the calls of all workers and of writer batches, any failure masks without CAS errors on
-unconditional deletes — one more call of worker `w` leaves every read at every revision `R' ≥ R` of every
+interleaving of the calls of all workers and of writer batches, any failure masks — one more call of
+worker `w` leaves every read at every revision `R' ≥ R` of every
 key unchanged, and leaves the logical index of every key unchanged. -/
 theorem par_compDel_invisible (R : Nat) (q : Quirks) (masks : Nat → Nat → DelOutcome)
-    (hm : ∀ w, NoCasOnDel (masks w)) (steps : List Step)
+    (steps : List Step)
     (hd : Disciplined q masks R (init R parts) steps) (w : Nat) :
     let s := run q masks (init R parts) steps
     let s' := step q masks s (.compDel w)
     (∀ R', R ≤ R' → ∀ k, readS R' s'.store k = readS R' s.store k) ∧
     (∀ k, logicalIdx s'.store k = logicalIdx s.store k) :=
-  invisible_of_inv (inv_reachable hs hw hk hne hidx hdisj R q masks steps hd) hm w
+  invisible_of_inv (inv_reachable hs hw hk hne hidx hdisj R q masks steps hd) w
 
 /-- **2. Whole run.** In the final state of any disciplined run every read at every revision `R' ≥ R`
 equals the read of the store in which every version record of the snapshot that is missing is put back. -/
 theorem par_race_equals_restored (R : Nat) (q : Quirks) (masks : Nat → Nat → DelOutcome)
-    (hm : ∀ w, NoCasOnDel (masks w)) (steps : List Step)
+    (steps : List Step)
     (hd : Disciplined q masks R (init R parts) steps) (R' : Nat) (hR : R ≤ R') (k : Bytes) :
     readS R' (run q masks (init R parts) steps).store k =
       readS R' (restored parts.flatten (run q masks (init R parts) steps).store) k := by
   have := restored_of_inv (inv_reachable hs hw hk hne hidx hdisj R q masks steps hd)
-    (chunkDom_disjoint hdisj) hm R' hR k
+    (chunkDom_disjoint hdisj) R' hR k
   rwa [allSnaps_run, allSnaps_init] at this
 
 /-- **3. The parallel race of worker `i` IS a single-worker race.** Project the schedule on worker `i`:
@@ -859,23 +860,23 @@ theorem sinv_reachable (n R : Nat) (q : Quirks) (masks : Nat → Nat → DelOutc
 /-- **1 (staggered).** Whenever the workers took their snapshots: in every reachable state one more call of
 any worker leaves every read at every `R' ≥ R` and every key's logical index unchanged. -/
 theorem par_compDel_invisible_staggered (n R : Nat) (q : Quirks) (masks : Nat → Nat → DelOutcome)
-    (hm : ∀ w, NoCasOnDel (masks w)) (steps : List SStep)
+    (steps : List SStep)
     (hd : SDisciplined q masks R dom (sinit recs0 n) steps) (w : Nat) :
     let s := srun q masks R dom (sinit recs0 n) steps
     let s' := step q masks s (.compDel w)
     (∀ R', R ≤ R' → ∀ k, readS R' s'.store k = readS R' s.store k) ∧
     (∀ k, logicalIdx s'.store k = logicalIdx s.store k) :=
-  invisible_of_inv (sinv_reachable hs hw hk hne hidx hdisj n R q masks steps hd).1 hm w
+  invisible_of_inv (sinv_reachable hs hw hk hne hidx hdisj n R q masks steps hd).1 w
 
 /-- **2 (staggered).** In the final state of any disciplined run every read at every `R' ≥ R` equals the
 read of the store in which every missing version record of every (running) worker's snapshot — taken when
 that worker started — is put back. -/
 theorem par_race_equals_restored_staggered (n R : Nat) (q : Quirks) (masks : Nat → Nat → DelOutcome)
-    (hm : ∀ w, NoCasOnDel (masks w)) (steps : List SStep)
+    (steps : List SStep)
     (hd : SDisciplined q masks R dom (sinit recs0 n) steps) (R' : Nat) (hR : R ≤ R') (k : Bytes) :
     let s := srun q masks R dom (sinit recs0 n) steps
     readS R' s.store k = readS R' (restored (allSnaps s) s.store) k :=
-  restored_of_inv (sinv_reachable hs hw hk hne hidx hdisj n R q masks steps hd).1 hdisj hm R' hR k
+  restored_of_inv (sinv_reachable hs hw hk hne hidx hdisj n R q masks steps hd).1 hdisj R' hR k
 
 /-- **3 (staggered).** Every worker of a reachable state has not started, or is in a single-worker race of
 its own: there is a disciplined run of `KB.C07Race` from its snapshot (which satisfies the hypotheses of
@@ -1074,13 +1075,13 @@ theorem parts2_acts :
         [.delcur (idxKey kb) (be64 7 ++ [0]) kb, .del (encode kb 3) kb, .del (encode kb 7) kb] ] := by decide
 
 def okMasks : Nat → Nat → DelOutcome := fun _ _ => .ok
-theorem okMasks_noCas : ∀ w, NoCasOnDel (okMasks w) := fun _ _ => by simp [okMasks]
 
 /-- worker 1's first call fails with a non-CAS error: it skips `kb` from then on; worker 0 is not affected -/
 def failMasks : Nat → Nat → DelOutcome := fun w i => if w = 1 ∧ i = 0 then .fail else .ok
-theorem failMasks_noCas : ∀ w, NoCasOnDel (failMasks w) := fun w i => by
-  show (if w = 1 ∧ i = 0 then DelOutcome.fail else DelOutcome.ok) ≠ _
-  split <;> simp
+
+/-- worker 1's compare-and-delete (its call 0) and its plain delete of `kb`'s version 3 (its call 1) fail
+with an error of the failed-condition class -/
+def casMasks : Nat → Nat → DelOutcome := fun w i => if w = 1 ∧ (i = 0 ∨ i = 1) then .failCas else .ok
 
 def createOps : List BOp := [.pine (idxKey kb) (be8 10), .put (encode kb 10) [9]]
 def recreateOps : List BOp := [.cas (idxKey kb) (be8 10) (be64 7 ++ [0]), .put (encode kb 10) [9]]
@@ -1112,6 +1113,27 @@ theorem runB_disciplined : Disciplined .tikv okMasks 8 (init 8 parts2) runB :=
 set_option maxRecDepth 100000 in
 theorem runF_disciplined : Disciplined .tikv failMasks 8 (init 8 parts2) runB :=
   ⟨trivial, trivial, .create kb [9] 10 (by decide), trivial, trivial, trivial, trivial, trivial⟩
+
+def sC : PState := run .tikv casMasks (init 8 parts2) runB
+
+set_option maxRecDepth 100000 in
+theorem runC_disciplined : Disciplined .tikv casMasks 8 (init 8 parts2) runB :=
+  ⟨trivial, trivial, .create kb [9] 10 (by decide), trivial, trivial, trivial, trivial, trivial⟩
+
+set_option maxRecDepth 100000 in
+/-- failed-condition errors: the failed compare-and-delete is not remembered, the failed plain delete is —
+worker 1 skips the marker of `kb`; worker 0 is not affected -/
+theorem runC_facts :
+    (run .tikv casMasks (init 8 parts2) [.compDel 0, .compDel 1]).workers.map (·.lastFailed) = [[], []] ∧
+    sC.workers.map (·.lastFailed) = [[], kb] ∧
+    sC.workers.map (·.trace) = [ [(false, encode ka 4)], [(true, idxKey kb), (false, encode kb 3)] ] ∧
+    sC.workers.map (·.pending) = [[], []] ∧
+    sC.store.get (encode ka 4) = none ∧ sC.store.get (encode kb 3) = some [1] ∧
+    sC.store.get (encode kb 7) = some tombstone ∧
+    sC.store.get (idxKey kb) = some (be64 7 ++ [0]) ∧
+    readS 8 sC.store kb = none ∧ readS (2 ^ 64 - 1) sC.store kb = none ∧
+    readS 8 sC.store ka = some ([3], 5) := by
+  decide
 
 set_option maxRecDepth 100000 in
 theorem runA_facts :
@@ -1171,10 +1193,15 @@ theorem runF_facts :
 example (R' : Nat) (hR : 8 ≤ R') (k : Bytes) :
     readS R' sA.store k = readS R' (restored parts2.flatten sA.store) k :=
   par_race_equals_restored parts2_hyps.1 parts2_hyps.2.1 parts2_hyps.2.2.1 parts2_hyps.2.2.2.1
-    parts2_hyps.2.2.2.2.1 parts2_hyps.2.2.2.2.2 8 .tikv okMasks okMasks_noCas runA runA_disciplined R' hR k
+    parts2_hyps.2.2.2.2.1 parts2_hyps.2.2.2.2.2 8 .tikv okMasks runA runA_disciplined R' hR k
 
 example := par_compDel_invisible parts2_hyps.1 parts2_hyps.2.1 parts2_hyps.2.2.1 parts2_hyps.2.2.2.1
-    parts2_hyps.2.2.2.2.1 parts2_hyps.2.2.2.2.2 8 .tikv failMasks failMasks_noCas runB runF_disciplined 1
+    parts2_hyps.2.2.2.2.1 parts2_hyps.2.2.2.2.2 8 .tikv failMasks runB runF_disciplined 1
+
+example (R' : Nat) (hR : 8 ≤ R') (k : Bytes) :
+    readS R' sC.store k = readS R' (restored parts2.flatten sC.store) k :=
+  par_race_equals_restored parts2_hyps.1 parts2_hyps.2.1 parts2_hyps.2.2.1 parts2_hyps.2.2.2.1
+    parts2_hyps.2.2.2.2.1 parts2_hyps.2.2.2.2.2 8 .tikv casMasks runB runC_disciplined R' hR k
 
 set_option maxRecDepth 100000 in
 /-- the projection of `runA` on worker 1 is the single-worker race of `KB.C07Race` over chunk 1 -/
@@ -1237,7 +1264,7 @@ theorem runS_facts :
 example (R' : Nat) (hR : 8 ≤ R') (k : Bytes) :
     readS R' sS.store k = readS R' (restored (allSnaps sS) sS.store) k :=
   par_race_equals_restored_staggered parts2_hyps.1 parts2_hyps.2.1 parts2_hyps.2.2.1 parts2_hyps.2.2.2.1
-    parts2_hyps.2.2.2.2.1 dom2_disjoint 2 8 .tikv okMasks okMasks_noCas runS runS_disciplined R' hR k
+    parts2_hyps.2.2.2.2.1 dom2_disjoint 2 8 .tikv okMasks runS runS_disciplined R' hR k
 
 /-! ### what is not true -/
 
